@@ -44,15 +44,21 @@ def matF (q : Q ℝ) : M9 ℝ :=
    2 * (q.x*q.y + q.w*q.z), q.w*q.w - q.x*q.x + q.y*q.y - q.z*q.z, 2 * (q.y*q.z - q.w*q.x),
    2 * (q.x*q.z - q.w*q.y), 2 * (q.y*q.z + q.w*q.x), q.w*q.w - q.x*q.x - q.y*q.y + q.z*q.z⟩
 
-/-- the generated `mjuu_quat2mat` (with its identity short-cut) is the polynomial matrix -/
-theorem quat2mat_eq (q : Q ℝ) : quat2mat q = matF q := by
-  obtain ⟨w, x, y, z⟩ := q
-  simp only [quat2mat, mjuu_quat2mat, matF, real_beq, real_ofInt, decide_eq_true_eq, Bool.decide_and,
-    Bool.and_eq_true]
+/-- the generated `mjuu_quat2mat` (with its identity short-cut) is the polynomial matrix (tuple form) -/
+theorem mjuu_quat2mat_eq (w x y z : ℝ) :
+    mjuu_quat2mat w x y z =
+      (w*w + x*x - y*y - z*z, 2 * (x*y - w*z), 2 * (x*z + w*y),
+       2 * (x*y + w*z), w*w - x*x + y*y - z*z, 2 * (y*z - w*x),
+       2 * (x*z - w*y), 2 * (y*z + w*x), w*w - x*x - y*y + z*z) := by
+  simp only [mjuu_quat2mat, real_beq, real_ofInt, decide_eq_true_eq, Bool.decide_and, Bool.and_eq_true]
   push_cast
   split_ifs with h
   · obtain ⟨⟨⟨rfl, rfl⟩, rfl⟩, rfl⟩ := h; simp
-  · simp only [M9.mk.injEq]; comp_ring
+  · simp only [Prod.mk.injEq]; comp_ring
+
+/-- `quat2mat` over ℝ is the polynomial matrix -/
+theorem quat2mat_eq (q : Q ℝ) : quat2mat q = matF q := by
+  simp only [quat2mat, mjuu_quat2mat_eq, matF]
 
 theorem mulvecmat_eq (v : V3 ℝ) (m : M9 ℝ) :
     mulvecmat v m = ⟨m.m0 * v.x + m.m1 * v.y + m.m2 * v.z, m.m3 * v.x + m.m4 * v.y + m.m5 * v.z,
